@@ -484,7 +484,7 @@ func sameValueDeep(a, b ssa.Value, d int) bool {
 func init() {
 	register(&Rule{
 		ID:    "C03.seqfinite",
-		Props: []string{"C03"},
+		Props: []string{"C03", "C04"},
 		Doc:   "Sequence.validate interpreted on concrete 3-point sequences of all four coordinates types with NaN, +Inf or -Inf placed in the X or the Y of each point in turn (72 models) returns an error every time, and nil when every X and Y is finite even if a Z or M is NaN: the first point is checked like any other, Z/M are not",
 		Floor: 1,
 		Run:   runC03SeqFinite,
